@@ -638,6 +638,8 @@ class ObjectMethod(DeserializationMethod):
     aliaser: Aliaser
     missing: str
     unexpected: str
+    # no_copy=False: the undeclared keys kept by a TypedDict are copied too
+    copy_additional: bool = False
     aggregate_fields: bool = field(init=False)
 
     def __post_init__(self):
@@ -752,7 +754,11 @@ class ObjectMethod(DeserializationMethod):
                             )
                 elif self.typed_dict:
                     for key in remain:
-                        values[key] = data[key]
+                        values[key] = (
+                            copy_containers(data[key])
+                            if self.copy_additional
+                            else data[key]
+                        )
         elif len(data) != fields_count:
             if not self.additional_properties:
                 for key in data.keys() - self.all_aliases:
@@ -762,7 +768,11 @@ class ObjectMethod(DeserializationMethod):
                         )
             elif self.typed_dict:
                 for key in data.keys() - self.all_aliases:
-                    values[key] = data[key]
+                    values[key] = (
+                        copy_containers(data[key])
+                        if self.copy_additional
+                        else data[key]
+                    )
         if self.validators:
             # field_errors is keyed by alias, validator dependencies by field name
             invalid_names: AbstractSet[str] = (
